@@ -836,3 +836,62 @@ func judgeTableGrid(s *Spec, a *Agg, body string) *finding {
 	}
 	return nil
 }
+
+// judgeFullTable: what `histo --all` prints after "Full Table:" — every key whose count is >= --atleast, whatever -n
+// says, each with its reference count, then the summary line once more. With plain keys the rows are read back; the
+// rows of the screen proper must be the first rows of the full table (same sorter, the screen only stops earlier).
+func judgeFullTable(s *Spec, a *Agg, full string) *finding {
+	if !strings.HasSuffix(full, "\n") {
+		return &finding{"all-table", "the full table does not end with a newline: " + run.Q(tail(full, 200))}
+	}
+	if f := judgeFooter(s, a, full); f != nil {
+		return &finding{"all-table", "after the full table: " + f.msg}
+	}
+	if !allPlain(sortedKeys(a.histo)) {
+		return nil
+	}
+	s2 := *s
+	s2.N = len(a.histo)
+	if f := judgeHistoRows(&s2, a, full); f != nil {
+		return &finding{"all-table", "full table: " + f.msg}
+	}
+	return nil
+}
+
+// histoKeysInOrder lists the first field of every non-empty row above the summary line.
+func histoKeysInOrder(body string) []string {
+	lines := strings.Split(strings.TrimSuffix(body, "\n"), "\n")
+	var out []string
+	for _, ln := range lines[:len(lines)-1] {
+		if f := strings.Fields(ln); len(f) > 0 {
+			out = append(out, f[0])
+		}
+	}
+	return out
+}
+
+// judgeScreenIsPrefixOfFull: with plain keys, the keys on the screen are, in order, the first keys of the full table.
+func judgeScreenIsPrefixOfFull(s *Spec, a *Agg, body, full string) *finding {
+	if !allPlain(sortedKeys(a.histo)) {
+		return nil
+	}
+	scr, all := histoKeysInOrder(body), histoKeysInOrder(full)
+	if len(scr) > len(all) {
+		return &finding{"all-table", fmt.Sprintf("the screen shows %d rows, the full table only %d", len(scr), len(all))}
+	}
+	for i := range scr {
+		if scr[i] != all[i] {
+			return &finding{"all-table", fmt.Sprintf("row %d of the screen is %s but row %d of the full table is %s (same sorter: the screen must be the head of the full table); screen %s full %s", i, run.Q(scr[i]), i, run.Q(all[i]), run.Q(body), run.Q(full))}
+		}
+	}
+	want := 0
+	for _, v := range a.histo {
+		if v >= s.AtLeast {
+			want++
+		}
+	}
+	if len(all) != want {
+		return &finding{"all-table", fmt.Sprintf("the full table has %d rows; %d keys have a count >= --atleast %d", len(all), want, s.AtLeast)}
+	}
+	return nil
+}
